@@ -251,6 +251,10 @@ def pagination(chk: Check, repo: Repo) -> None:
 
 
 def run(chk: Check, repo: Repo) -> None:
+    # the value-level half of this property (the payload a value encodes to decodes to the same value; a decoded value
+    # is accepted by the type's own encoder) is the codec round trip of C08 - its obligations are part of this check
+    from . import c08
+    c08.run(chk, repo)
     types_native(chk, repo)
     jsonify_paths(chk, repo)
     codec_tools(chk, repo)
